@@ -3561,11 +3561,10 @@ impl Transition {
                     if name.len() == e.len() {
                         // Full match
                         return true;
-                    } else if let Some(c) = name.chars().nth(e.len()) {
-                        // partial match, token needs to be terminated with "."
-                        if c == '.' {
-                            return true;
-                        }
+                    } else if name.as_bytes()[e.len()] == b'.' {
+                        // partial match, token needs to be terminated with ".".
+                        // "e.len()" is a byte offset (not a char index), so compare bytes. In UTF-8 the byte 0x2E is always a '.'.
+                        return true;
                     }
                 }
             }
